@@ -6,7 +6,7 @@ sys.path.insert(0, HERE)
 ALL = [f"C{i:02d}" for i in range(1, 21)]
 NA = {
     "C18": "numerical tolerance contract of expm_krylov / svd_qn over all matrices: its truth lives in floating-point values of Lanczos and LAPACK results, no sound static argument is in reach (the one shape-visible part, callers respecting the Hermitian precondition, is decided under C09/C12)",
-    "C20": "validity and minimality of the vertex cover for every bipartite graph is functional correctness of an algorithm over runtime data; deciding it from source is full program verification (or small-scope execution, another technique family)",
+    "C20": "validity and minimality of the vertex cover for every bipartite graph is functional correctness of an algorithm over runtime data; deciding it from source is full program verification; the bounded whole-function runs of C01 / C02 interpret the cover routine on a few small graphs only as a step of the operator builder and decide nothing about minimality",
 }
 checks, na = [], []
 for pid in ALL:
